@@ -393,6 +393,20 @@ def stepMgr (d : DState) (s : St) (toks : List String) : DState × String :=
     | some f => keep d s (match paths FUEL s f with
         | some ps => "[" ++ ", ".intercalate (ps.map showIntList) ++ "]" | none => "panic fuel")
     | none => keep d s "bad-op"
+  | ["acc", f] =>
+    match hOf d.env s f with
+    | some f =>
+      let i := f.idx
+      let n := s.node i
+      keep d s ("var=" ++ toString n.var ++ " low=" ++ toString n.low.raw ++ " high=" ++ toString n.high.raw ++
+        " node=" ++ showNode n ++ " next=" ++ toString (Arr.rd s.storage.nxs i) ++
+        " one=" ++ boolS (isOne f) ++ " zero=" ++ boolS (isZero f) ++ " term=" ++ boolS (isTerminal f) ++
+        " neg=" ++ boolS f.neg ++ " idx=" ++ toString i ++ " pos=" ++ toString (2 * i) ++
+        " negc=" ++ toString (2 * i + 1) ++ " disp=" ++ f.show)
+    | none => keep d s "bad-op"
+  | ["debugfmt"] =>
+    keep d s ("Bdd { capacity: " ++ toString s.storage.vals.size ++ ", size: " ++ toString s.storage.lastIndex ++
+      ", real_size: " ++ toString s.storage.realSize ++ " }")
   | "heldgc" :: which :: rs =>
     match hsOf d.env s rs, (match which with | "cache" => some 0 | "size" => some 1 | "storage" => some 2 | _ => none) with
     | some _, some w =>
@@ -456,6 +470,10 @@ def step (d : DState) (line : String) : DState × String :=
       | .ok s => ({ d with st := some s, env := #[Ref.one, Ref.zero], pit := none }, "ok")
       | .error e => ({ d with st := none, env := #[], pit := none }, "panic " ++ e.toString)
     | _, _, _ => bad
+  | ["default"] =>
+    match St.new 20 with
+    | .ok s => ({ d with st := some s, env := #[Ref.one, Ref.zero], pit := none }, "ok")
+    | .error e => ({ d with st := none, env := #[], pit := none }, "panic " ++ e.toString)
   | ["newdefault", sb] =>
     match sb.toNat? with
     | some sb =>
